@@ -460,6 +460,21 @@ def card_reports(U, snap):
             continue
         errs = [e for e in Validation(root).errors
                 if getattr(e.validation_id, "name", str(e.validation_id)) in _CARD_ISSUE.values()]
+        # a Validation the caller keeps, runs again after every edit and asks per object
+        # (validation[obj]) must say the same as a fresh one
+        kept = U.kept_card_vals.get(r)
+        if kept is None:
+            kept = U.kept_card_vals[r] = Validation(root)
+        else:
+            kept.run_validation()
+        for obj in covered:
+            mine = sorted(getattr(e.validation_id, "name", "") for e in errs if e.obj is obj)
+            theirs = sorted(getattr(e.validation_id, "name", "") for e in kept[obj]
+                            if getattr(e.validation_id, "name", "") in _CARD_ISSUE.values())
+            if mine != theirs:
+                return ("card.report-exact", "a kept Validation of obj#%d, run again, reports %r for "
+                        "obj#%d through validation[obj]; a fresh one reports %r" %
+                        (r, theirs, U.index(obj), mine))
         for obj in covered:
             i = U.index(obj)
             rec = snap["objs"][i]
@@ -492,6 +507,17 @@ def mon_card(ctx):
             if field in rec and card_pair(rec[field]) != pair:
                 return ("card.accepts-valid", "assignment of the valid cardinality %r stored %r" %
                         (pair, card_pair(rec[field])))
+    if ctx.name in ("set_card", "set_card2") and kind_of(ctx.args.get("x")) in ("sec", "prop"):
+        # one object's setting: nobody else's cardinality moves with it
+        me = ctx.U.index(ctx.args["x"])
+        for j in range(min(len(ctx.pre["objs"]), len(ctx.post["objs"]))):
+            if j == me:
+                continue
+            for field in _CARD_FIELDS.get(ctx.pre["objs"][j].get("k"), ()):
+                if ctx.pre["objs"][j].get(field) != ctx.post["objs"][j].get(field):
+                    return ("card.refusal-keeps", "assigning a cardinality to obj#%d changed %s of "
+                            "obj#%d: %r -> %r" % (me, field, j, ctx.pre["objs"][j].get(field),
+                                                  ctx.post["objs"][j].get(field)))
     if ctx.name in ("set_card", "set_card2") and ctx.raised:
         if ctx.outcome[1] != "ValueError" and "wrong_type" not in ctx.labels:
             return ("card.refusal-keeps", "%s raised %s: %s" % (ctx.name, ctx.outcome[1],
